@@ -36,10 +36,13 @@ def setter_group(name, attr, spec, arg_builders, machine_kw_list, label):
                                   lambda: ([G.mk_gmm(I, **mk), ab()], {}), spec, F, name + ".post",
                                   state_names={0: "self"})
             out += cl
-            # Inv on the post state
-            m = G.mk_gmm(I, **mk)
-            log = T.SideLog(I.side_ctx)
-            res = I.run_paths(lambda: (run_setter(I, m, attr, ab()), m)[1])
+            # Inv on the post state (a fresh machine per explored path: the setter mutates it)
+            def post_state():
+                m = G.mk_gmm(I, **mk)
+                I.complete_fixture([m])
+                run_setter(I, m, attr, ab())
+                return m
+            res = I.run_paths(post_state)
             for pc, (k, mm) in res:
                 if k == "ok":
                     G.inv_clauses(mm, F.extend(pc), name + ".inv", out)
